@@ -1,0 +1,48 @@
+//go:build verif
+
+// Licensed to LinDB under one or more contributor
+// license agreements. See the NOTICE file distributed with
+// this work for additional information regarding copyright
+// ownership. LinDB licenses this file to you under
+// the Apache License, Version 2.0 (the "License"); you may
+// not use this file except in compliance with the License.
+// You may obtain a copy of the License at
+//
+//     http://www.apache.org/licenses/LICENSE-2.0
+//
+// Unless required by applicable law or agreed to in writing,
+// software distributed under the License is distributed on an
+// "AS IS" BASIS, WITHOUT WARRANTIES OR CONDITIONS OF ANY
+// KIND, either express or implied.  See the License for the
+// specific language governing permissions and limitations
+// under the License.
+
+package index
+
+import (
+	"os"
+)
+
+// This file only exists with the "verif" build tag. It exposes the package's
+// test seams to the external verification harness; it changes no behaviour.
+
+// VerifSeams holds the replaceable seams of the sequence file.
+type VerifSeams struct {
+	RWMap func(f *os.File, size int) ([]byte, error)
+	Sync  func(data []byte) error
+}
+
+// VerifGetSeams returns the current seams.
+func VerifGetSeams() VerifSeams {
+	return VerifSeams{RWMap: rwMapFn, Sync: syncFn}
+}
+
+// VerifSetSeams installs the non-nil seams.
+func VerifSetSeams(s VerifSeams) {
+	if s.RWMap != nil {
+		rwMapFn = s.RWMap
+	}
+	if s.Sync != nil {
+		syncFn = s.Sync
+	}
+}
